@@ -113,10 +113,14 @@ def _gen_op(r, model):
                 idx = ['num', str(r.choice([0, n // 2, n]))]
                 if r.random() < 0.15:
                     inf = ['call', 'float', [['str', r.choice(['inf', 'Infinity', 'nan'])]], 'plain']
-                    idx = r.choice([inf, ['neg', inf], ['neg', ['num', '99999999999999999999']]])
+                    idx = r.choice([inf, ['neg', inf], ['neg', ['num', '99999999999999999999']], ['none'], ['none']])
                 return ['call', 'insert', [te, idx, val], gen.sugar(r, 3)], 'insert'
             if a == 'set':
-                return ['setitem', te, ['num', str(r.randrange(n) if n else 0)], val], 'setitem'
+                idx = ['num', str(r.randrange(n) if n else 0)]
+                if r.random() < 0.15:
+                    inf = ['call', 'float', [['str', r.choice(['inf', 'nan', '-inf'])]], 'plain']
+                    idx = r.choice([inf, ['none'], ['neg', ['num', '99999999999999999999']], ['str', 'x']])
+                return ['setitem', te, idx, val], 'setitem'
             if a == 'setnew':
                 return ['setitem', te, ['num', str(n)], val], 'setitem'
             return ['setitemop', te, ['num', str(r.randrange(n) if n else 0)], r.choice(['+=', '-=', '*=']), ['num', '1']], 'setitemop'
